@@ -144,7 +144,7 @@ class Run:
                 self.cur.known.append(cex)
                 return False
         os.makedirs(self.replay_dir, exist_ok=True)
-        path = os.path.join(self.replay_dir, re.sub(r'[^\w.-]', '_', f'{self.cur.name}-{label}')[:100] + '.json')
+        path = os.path.join(self.replay_dir, re.sub(r'[^\w.-]', '_', f'{self.cur.name}-{label}')[:80] + '-' + hashlib.sha1(f'{self.cur.name}-{label}'.encode()).hexdigest()[:8] + '.json')
         verdict = {'mode': 'none'}
         if replay is not None:
             try:
